@@ -9,4 +9,5 @@ import Simfile.Model.Engine
 import Simfile.Spec.Timeline
 import Simfile.Spec.Notes
 import Simfile.Spec.Group
+import Simfile.Model.Load
 import Simfile.Driver
